@@ -22,6 +22,8 @@ type Roles struct {
 	StateT                              types.Type // when the transaction state is an object with methods: its struct type
 	Tables                              ssa.Value  // the make(map[uint64]*tableCache)
 	Select                              *ssa.Select
+	RecvCall                            *ssa.Call // when the receive select lives in a helper: the parser's call of it
+	recvOK                              int       // ... and the index of its bool result
 	RawEv                               ssa.Value // the event extracted from the select
 	IsValidCall                         *ssa.Call
 	StripCall                           *ssa.Call
@@ -101,7 +103,53 @@ func resolveRolesG(a *A, rule string, groups string) *Roles {
 			}
 		}
 	})
+	if r.Parser == nil {
+		// Stream split into steps: the parser is called by an in-package function Stream calls (the checks of the parser's
+		// own skeleton do not care where it is called from; those that relate the call to Stream's other steps still need
+		// it in Stream itself and say so)
+		for f := range reachableInPkg([]*ssa.Function{r.Stream}, w.Root) {
+			instrs(f, func(in ssa.Instruction) {
+				c, ok := in.(*ssa.Call)
+				if !ok {
+					return
+				}
+				g := c.Common().StaticCallee()
+				if g == nil || g.Pkg != w.Root || r.Parser != nil {
+					return
+				}
+				takes, gives := false, false
+				for _, p := range g.Params {
+					if isBinlogEventChan(p.Type()) {
+						takes = true
+					}
+				}
+				res := g.Signature.Results()
+				for i := 0; i < res.Len(); i++ {
+					if isBinlogEventChan(res.At(i).Type()) {
+						gives = true
+					}
+				}
+				if takes && !gives && !want("c") {
+					r.Parser, r.ParserCall = g, c
+				}
+			})
+		}
+	}
 	if (want("p") || want("t")) && !a.need(r.Parser != nil, rule, "parser (callee of Stream taking <-chan BinlogEvent)") {
+		return nil
+	}
+	if r.StartDump == nil && want("r") && !want("c") {
+		// reader-side rules only need the dump starter itself, wherever Stream's steps call it from
+		for f := range reachableInPkg([]*ssa.Function{r.Stream}, w.Root) {
+			res := f.Signature.Results()
+			for i := 0; i < res.Len(); i++ {
+				if isBinlogEventChan(res.At(i).Type()) && f.Blocks != nil && r.StartDump == nil {
+					r.StartDump = f
+				}
+			}
+		}
+	}
+	if want("r") && !want("c") && !a.need(r.StartDump != nil, rule, "dump starter (function reachable from Stream returning <-chan BinlogEvent)") {
 		return nil
 	}
 	if want("c") && (!a.need(r.StartDump != nil, rule, "dump starter (callee of Stream returning <-chan BinlogEvent)") ||
@@ -313,15 +361,63 @@ func resolveRolesG(a *A, rule string, groups string) *Roles {
 				}
 			}
 		})
-		if !a.need(r.Select != nil, rule, "parser select") || !a.need(r.Tables != nil, rule, "table cache map") {
+		if r.Select == nil {
+			// the receive lives in a helper ("next event or stop"): an in-package function the parser calls that holds the
+			// one blocking select over the event channel and returns the event together with a bool
+			instrs(r.Parser, func(in ssa.Instruction) {
+				c, ok := in.(*ssa.Call)
+				if !ok || r.RecvCall != nil {
+					return
+				}
+				g := c.Common().StaticCallee()
+				if g == nil || g.Blocks == nil || g.Pkg != w.Root {
+					return
+				}
+				res := g.Signature.Results()
+				evIdx, okIdx := -1, -1
+				for i := 0; i < res.Len(); i++ {
+					if namedIs(res.At(i).Type(), replPath, "BinlogEvent") {
+						evIdx = i
+					}
+					if isBoolType(res.At(i).Type()) {
+						okIdx = i
+					}
+				}
+				nSel := 0
+				recvs := false
+				instrs(g, func(i2 ssa.Instruction) {
+					if s, ok := i2.(*ssa.Select); ok && s.Blocking {
+						nSel++
+						for _, st := range s.States {
+							if st.Dir == types.RecvOnly && isBinlogEventChan(st.Chan.Type()) {
+								recvs = true
+							}
+						}
+					}
+				})
+				if res.Len() == 2 && evIdx >= 0 && okIdx >= 0 && nSel == 1 && recvs {
+					r.RecvCall, r.recvOK = c, okIdx
+					for _, ref := range *c.Referrers() {
+						if ex, ok := ref.(*ssa.Extract); ok && ex.Index == evIdx {
+							r.RawEv = ex
+						}
+					}
+				}
+			})
+		}
+		if !a.need(r.Select != nil || r.RecvCall != nil, rule, "parser select") || !a.need(r.Tables != nil, rule, "table cache map") {
 			return nil
 		}
 		// select → raw event → IsValid → StripChecksum
-		r.LoopHead = r.Select.Block()
-		for _, ref := range *r.Select.Referrers() {
-			if ex, ok := ref.(*ssa.Extract); ok && namedIs(ex.Type(), replPath, "BinlogEvent") {
-				r.RawEv = ex
+		if r.Select != nil {
+			r.LoopHead = r.Select.Block()
+			for _, ref := range *r.Select.Referrers() {
+				if ex, ok := ref.(*ssa.Extract); ok && namedIs(ex.Type(), replPath, "BinlogEvent") {
+					r.RawEv = ex
+				}
 			}
+		} else {
+			r.LoopHead = r.RecvCall.Block()
 		}
 		if !a.need(r.RawEv != nil, rule, "received event (extract of the parser select)") {
 			return nil
@@ -362,7 +458,7 @@ func resolveRolesG(a *A, rule string, groups string) *Roles {
 		}
 	} // parser core
 
-	if want("c") {
+	if want("c") || want("r") {
 		// connection side
 		instrs(r.StartDump, func(in ssa.Instruction) {
 			switch x := in.(type) {
@@ -404,6 +500,10 @@ func resolveRolesG(a *A, rule string, groups string) *Roles {
 		}
 		if !a.need(r.ReadEvent != nil, rule, "packet decoder (reader's callee that calls ReadPacket)") {
 			return nil
+		}
+		if !want("c") {
+			a.touch(r.Stream, r.StartDump, r.Reader, r.ReadEvent)
+			return r
 		}
 		instrs(r.NewConn, func(in ssa.Instruction) {
 			if c, ok := in.(*ssa.Call); ok {
@@ -526,4 +626,22 @@ func (r *Roles) isRoleCall(x *ssa.Call, fn *ssa.Function, mc *ssa.MakeClosure) b
 		return x.Common().Value == ssa.Value(mc)
 	}
 	return fn != nil && x.Common().StaticCallee() == fn && !x.Common().IsInvoke()
+}
+
+// isFormat: v is the parser's current format - the loop variable itself or, when a closure captures `format` and go/ssa
+// therefore keeps it in memory, a load of that variable's cell.
+func (r *Roles) isFormat(v ssa.Value) bool {
+	if v == r.FormatPhi {
+		return true
+	}
+	cell := func(x ssa.Value) ssa.Value {
+		if u, ok := x.(*ssa.UnOp); ok && u.Op == token.MUL {
+			if al, ok := u.X.(*ssa.Alloc); ok {
+				return al
+			}
+		}
+		return nil
+	}
+	c := cell(r.FormatPhi)
+	return c != nil && cell(v) == c
 }
